@@ -245,7 +245,7 @@ theorem get?_none_of_sub {s s' : State} (hsub : ∀ x ∈ s'.pool, x ∈ s.pool)
     exact get?_none_forall h x (hsub x hx) ⟨hp, hn⟩
 
 theorem frameAbs (g : Graph) (hwf : absWfB g = true) (E : Atom → String → Prop) :
-    Frame g (QAbs g E) JTrue where
+    Frame g (fun _ => True) (QAbs g E) JTrue where
   qcongr := by
     intro s s' x hk hh ha h
     refine qabs_of ha ?_ ?_ h
@@ -268,8 +268,10 @@ theorem frameAbs (g : Graph) (hwf : absWfB g = true) (E : Atom → String → Pr
     · exact Or.inr (Or.inl (prereqsSatisfied_satisfyMe x b h1))
     · exact Or.inr (Or.inr (Or.inl (atomSat_satisfyMe_mono x a b h1)))
     · exact Or.inr (Or.inr (Or.inr h1))
+  child := fun _ _ _ _ _ _ => trivial
+  nextp := fun _ _ _ _ _ => trivial
   spawn := by
-    intro s n p z _ hz a hm hd
+    intro s n p z _ _ hz a hm hd
     have hk := spawnTask_key hz
     rw [hk.2] at hd ⊢
     obtain ⟨t, ht, habs⟩ := hasAbs_of_dependent hwf hd
@@ -533,7 +535,7 @@ theorem holdsAbs_spawnChild (g : Graph) (hwf : absWfB g = true) (p : Int) (n out
     · exact ha
   generalize (if (c.isAbs && !st.absDone.contains ⟨p, n, out⟩) = true then
       { st with absDone := st.absDone ++ [⟨p, n, out⟩] } else st) = st0 at h0 hrec hsub ⊢
-  have hcore := (frameAbs g hwf E).holds_spawnChild_core p n out st0 sui c h0
+  have hcore := (frameAbs g hwf E).holds_spawnChild_core p n out st0 sui c trivial h0
   have hdone := absDone_spawnChildCore g p n out st0 sui c
   constructor
   · refine ⟨?_, trivial⟩
@@ -569,11 +571,6 @@ theorem holdsAbs_spawnChild (g : Graph) (hwf : absWfB g = true) (p : Int) (n out
     refine ⟨hE hnot' d, ?_⟩
     intro hcd
     exact hnot (hrec hcd.1)
-
-theorem childrenOf_congr (g : Graph) (x y : Proxy) (out : String) (hp : x.pt = y.pt) (hn : x.name = y.name) :
-    childrenOf g x out = childrenOf g y out := by
-  unfold childrenOf
-  rw [hp, hn]
 
 /-- exemption after serving a list of children -/
 def MinusL (E : Atom → String → Prop) (cs : List Child) : Atom → String → Prop :=
@@ -650,18 +647,20 @@ theorem absInv_empty (g : Graph) : AbsInv g ({} : State) := by
 
 /-- the invariant holds in every state of every run -/
 theorem absInv_run (g : Graph) (hwf : absWfB g = true) (ops : List Op) : ∀ s ∈ run g ops, AbsInv g s :=
-  (frameAbs g hwf NoExempt).holds_run (absInv_spawnOnOutput g hwf) (absInv_empty g) ops
+  (frameAbs g hwf NoExempt).holds_run (absInv_spawnOnOutput g hwf) (absInv_empty g) (fun _ _ _ _ => trivial) ops
 
 /-! ### a recorded absolute output stays recorded -/
 
 def QTrue (_ : State) (_ : Proxy) : Prop := True
 
-theorem frameRec (g : Graph) (a : Atom) : Frame g QTrue (fun s => a ∈ s.absDone) where
+theorem frameRec (g : Graph) (a : Atom) : Frame g (fun _ => True) QTrue (fun s => a ∈ s.absDone) where
+  child := fun _ _ _ _ _ _ => trivial
+  nextp := fun _ _ _ _ _ => trivial
   qcongr := fun _ _ _ _ _ _ _ => trivial
   jcongr := by intro s s' _ _ ha _ h; rw [ha]; exact h
   upd := fun _ _ _ _ _ => trivial
   sat := fun _ _ _ _ => trivial
-  spawn := fun _ _ _ _ _ _ => trivial
+  spawn := fun _ _ _ _ _ _ _ => trivial
   add := fun _ _ h _ _ _ => ⟨fun _ _ => trivial, h.2⟩
   remove := fun _ _ _ h _ => ⟨fun _ _ => trivial, h.2⟩
   launch := fun _ _ _ h _ => ⟨fun _ _ => trivial, h.2⟩
@@ -680,7 +679,7 @@ theorem absDone_step (g : Graph) (s : State) (op : Op) (a : Atom) (h : a ∈ s.a
 
 theorem absDone_spawnChild_sub (g : Graph) (p : Int) (n out : String) (acc : State × List (Int × String))
     (c : Child) (a : Atom) (h : a ∈ acc.1.absDone) : a ∈ (spawnChild g p n out acc c).1.absDone :=
-  ((frameRec g a).holds_spawnChild (absClosedRec a) p n out acc c ⟨fun _ _ => trivial, h⟩).2
+  ((frameRec g a).holds_spawnChild (absClosedRec a) p n out acc c trivial ⟨fun _ _ => trivial, h⟩).2
 
 theorem absDone_spawnChild_records (g : Graph) (p : Int) (n out : String) (acc : State × List (Int × String))
     (c : Child) (habs : c.isAbs = true) : (⟨p, n, out⟩ : Atom) ∈ (spawnChild g p n out acc c).1.absDone := by
